@@ -117,8 +117,9 @@ def check(world, plans, results):
                 v.fail("history:agree", "the two history variants differ")
             tree = Tree(world["nodes"])
             paths = [p for p, c, s in h if tree.is_fileish(p)]
-            if paths != model["consulted"]:
-                v.fail("history:paths", "history lists %r, consulted files are %r" % (paths, model["consulted"]))
+            expected_paths = model["consulted"]
+            if paths != expected_paths:
+                v.fail("history:paths", "history lists %r, consulted files are %r" % (paths, expected_paths))
             elif rh.get("size") != len(h):
                 v.fail("history:size", "size out-value %r but %d members" % (rh.get("size"), len(h)))
             else:
